@@ -437,6 +437,30 @@ func (cs *connState) StartTag(t tag) bool {
 	return true
 }
 
+// ReleaseTag wakes everybody waiting for the tag while keeping it active.
+//
+// This is for requests that nobody needs to wait for, namely flushes: a
+// Tflush that names its own tag, or two that name each other, would
+// otherwise wait forever.
+func (cs *connState) ReleaseTag(t tag) {
+	cs.tagMu.Lock()
+	defer cs.tagMu.Unlock()
+	if ch, ok := cs.tags[t]; ok {
+		closeOnce(ch)
+	}
+}
+
+// closeOnce closes ch unless it is closed already.
+//
+// Precondition: tagMu is held.
+func closeOnce(ch chan struct{}) {
+	select {
+	case <-ch:
+	default:
+		close(ch)
+	}
+}
+
 // ClearTag finishes handling a tag.
 func (cs *connState) ClearTag(t tag) {
 	cs.tagMu.Lock()
@@ -449,7 +473,7 @@ func (cs *connState) ClearTag(t tag) {
 	delete(cs.tags, t)
 
 	// Notify.
-	close(ch)
+	closeOnce(ch)
 }
 
 // Waittag waits for a tag to finish.
@@ -547,6 +571,12 @@ func (cs *connState) handleRequest() bool {
 		cs.server.log.Printf("no valid tag [%05d]", tag)
 		// Nothing we can do at this point; client is bogus.
 		return true
+	}
+
+	// Nobody has to wait for a flush to finish: flushing a flush is
+	// answered at once.
+	if _, ok := m.(*tflush); ok {
+		cs.ReleaseTag(tag)
 	}
 
 	// Handle the message.
